@@ -112,7 +112,14 @@ Qed.
 (* 2. the generic development                                                                       *)
 Section Generic.
 Variables Rl Rg : text -> text -> Prop.
-Hypothesis HRl_up : forall v v', Rl v v' -> upper v = upper v'.
+(* what the passes may read of a keyword leaf's value: Token.normalized, and value.upper() compared with a word
+   that contains no white space.  Instances: ASCII re-casing (CR: equal upper-casings), and re-casing + any
+   spelling of the white space inside a compound keyword (WR: equal after collapsing) *)
+Hypothesis HRl : forall v v', Rl v v' ->
+  knorm v = knorm v' /\ (forall s, nospace s = true -> text_eqb (upper v) s = text_eqb (upper v') s).
+Let HRl_kn : forall v v', Rl v v' -> knorm v = knorm v' := fun v v' H => proj1 (HRl v v' H).
+Let HRl_ue : forall v v' s, Rl v v' -> nospace s = true -> text_eqb (upper v) s = text_eqb (upper v') s :=
+  fun v v' s H => proj2 (HRl v v' H) s.
 Notation R := (crelG Rl Rg).
 Notation LR := (Forall2 (crelG Rl Rg)).
 Hypothesis Hmk : forall k k', LR k k' -> Rg (text_of_list k) (text_of_list k').
@@ -124,7 +131,7 @@ Lemma cinv_match_pat p : cinv (fun n => match_pat n p).
 Proof.
   intros n n' [ty v v' Hv | c v v' k k' Hv Hk]; cbn [match_pat]; [|reflexivity].
   destruct (tin ty T_Keyword).
-  - unfold knorm. rewrite (HRl_up _ _ Hv). reflexivity.
+  - rewrite (HRl_kn _ _ Hv). reflexivity.
   - subst v'. reflexivity.
 Qed.
 
@@ -185,7 +192,7 @@ Qed.
 Lemma normalized_kw_rel n n' : R n n' -> is_kw n = true -> normalized n = normalized n'.
 Proof.
   intros [ty v v' Hv | c v v' k k' Hv Hk]; cbn [is_kw tt_in normalized]; [|discriminate].
-  intros K. rewrite K in *. unfold knorm. rewrite (HRl_up _ _ Hv). reflexivity.
+  intros K. rewrite K in *. apply HRl_kn, Hv.
 Qed.
 
 Lemma leaf_nonkw_eq ty v n' : R (Leaf ty v) n' -> tin ty T_Keyword = false -> n' = Leaf ty v.
@@ -438,15 +445,14 @@ Proof. destruct c; cbn; tauto. Qed.
 Lemma leaf_safe_kw e ty v v' : leaf_safe e = true -> tin ty T_Keyword = true -> Rl v v' ->
   eval_tot e (Leaf ty v) = eval_tot e (Leaf ty v').
 Proof.
-  intros Hs K Hv. pose proof (HRl_up _ _ Hv) as Hu.
-  assert (Hkn : knorm v = knorm v') by (unfold knorm; rewrite Hu; reflexivity).
+  intros Hs K Hv. pose proof (HRl_kn _ _ Hv) as Hkn.
   induction e as [| | | | |p|ty0|tys|ty0|cs|i m t| | | | |s|s|s|a IHa|a IHa b0 IHb|a IHa b0 IHb];
     cbn [leaf_safe] in Hs; try discriminate; cbn [eval_tot eval_attr_atom]; try reflexivity.
   - (* TokenMatch *) cbn [match_pat]. rewrite K, Hkn. reflexivity.
   - (* Imt *) cbn [imt]. f_equal. f_equal. induction m as [|p m IHm]; cbn [existsb]; [reflexivity|].
     rewrite IHm. f_equal. cbn [match_pat]. rewrite K, Hkn. reflexivity.
   - (* NormalizedEq *) cbn [normalized]. rewrite K, Hkn. reflexivity.
-  - (* ValueUpperEq *) cbn [nvalue]. rewrite Hu. reflexivity.
+  - (* ValueUpperEq *) cbn [nvalue]. apply HRl_ue; assumption.
   - rewrite IHa by exact Hs. reflexivity.
   - apply andb_true_iff in Hs. destruct Hs as [Ha Hb]. rewrite IHa, IHb by assumption. reflexivity.
   - apply andb_true_iff in Hs. destruct Hs as [Ha Hb]. rewrite IHa, IHb by assumption. reflexivity.
